@@ -1,3 +1,4 @@
+pub mod chunk;
 pub mod common;
 pub mod prog;
 
@@ -10,9 +11,10 @@ pub static STATEMACHINE: Roundtrip = Roundtrip { mode: Mode::C12 };
 pub static APPEND: Roundtrip = Roundtrip { mode: Mode::C13 };
 pub static RAWCOPY: Roundtrip = Roundtrip { mode: Mode::C14 };
 pub static ALIGN: Roundtrip = Roundtrip { mode: Mode::C17 };
+pub static CHUNKING: chunk::Chunking = chunk::Chunking;
 
 pub fn all() -> Vec<&'static dyn Scenario> {
-    vec![&ROUNDTRIP, &ROUNDTRIP_FULL, &STATEMACHINE, &APPEND, &RAWCOPY, &ALIGN]
+    vec![&ROUNDTRIP, &ROUNDTRIP_FULL, &STATEMACHINE, &APPEND, &RAWCOPY, &ALIGN, &CHUNKING]
 }
 
 pub fn lookup(name: &str) -> Option<&'static dyn Scenario> {
@@ -33,6 +35,7 @@ pub fn props() -> Vec<PropCfg> {
     vec![
         PropCfg { id: "C01", level: "exploration", scenarios: vec![&ROUNDTRIP], assumptions: vec![A_MODEL, A_CODEC] },
         PropCfg { id: "C02", level: "exploration", scenarios: vec![&ROUNDTRIP_FULL], assumptions: vec!["independent parser written from APPNOTE is the judge", A_CODEC, "literal 0xFFFF/0xFFFFFFFF without ZIP64 accepted"] },
+        PropCfg { id: "C09", level: "exploration", scenarios: vec![&CHUNKING], assumptions: vec![A_CODEC, "the unfragmented (Pure policy) execution is the reference outcome"] },
         PropCfg { id: "C12", level: "exploration", scenarios: vec![&STATEMACHINE], assumptions: vec![A_MODEL, A_CODEC, "after a failed state-changing call the model only constrains what the property states (R6)"] },
         PropCfg { id: "C13", level: "exploration", scenarios: vec![&APPEND], assumptions: vec![A_MODEL, A_CODEC, "the crate's own reading of a foreign base archive is the reference for 'unchanged' (reader fidelity is C03's job)"] },
         PropCfg { id: "C14", level: "exploration", scenarios: vec![&RAWCOPY], assumptions: vec![A_MODEL, A_CODEC, "source entries are described by the independent parser"] },
